@@ -561,3 +561,40 @@ impl Default for HistogramStats {
         }
     }
 }
+
+// ========== Verification hooks ==========
+
+/// Counts the ACTUAL guard acquisitions of the collector's mutex (feature `verif-hooks` only).
+///
+/// `self.inner` is an `Arc<Mutex<..>>`; a method named `lock` on the `Arc` itself is found by
+/// method resolution before `Mutex::lock` (which needs one more auto-deref), so every
+/// `self.inner.lock()` / `self.inner.try_lock()` in this file goes through these wrappers, which
+/// forward to the standard methods and report each successful acquisition to
+/// `verif_hooks::note_lock_acquired`. Without the feature nothing here exists.
+#[cfg(feature = "verif-hooks")]
+trait VerifCountedLock {
+    fn lock(&self) -> std::sync::LockResult<std::sync::MutexGuard<'_, MetricsCollectorInner>>;
+    #[allow(dead_code)]
+    fn try_lock(
+        &self,
+    ) -> std::sync::TryLockResult<std::sync::MutexGuard<'_, MetricsCollectorInner>>;
+}
+
+#[cfg(feature = "verif-hooks")]
+impl VerifCountedLock for Arc<Mutex<MetricsCollectorInner>> {
+    fn lock(&self) -> std::sync::LockResult<std::sync::MutexGuard<'_, MetricsCollectorInner>> {
+        let guard = Mutex::lock(self);
+        crate::verif_hooks::note_lock_acquired("metrics");
+        guard
+    }
+
+    fn try_lock(
+        &self,
+    ) -> std::sync::TryLockResult<std::sync::MutexGuard<'_, MetricsCollectorInner>> {
+        let guard = Mutex::try_lock(self);
+        if !matches!(guard, Err(std::sync::TryLockError::WouldBlock)) {
+            crate::verif_hooks::note_lock_acquired("metrics");
+        }
+        guard
+    }
+}
